@@ -42,7 +42,7 @@ class State:
         s = State([dict(f) for f in self.frames], dict(self.heap), list(self.pc), self.old)
         s.frame_locals = list(self.frame_locals)
         s.ghost_log = list(self.ghost_log)
-        for k in ('trail', 'current_exc', 'ki', 'ki_points', 'ki_exc'):
+        for k in ('trail', 'current_exc', 'ki', 'ki_points', 'ki_exc', 'done_stack'):
             if hasattr(self, k):
                 setattr(s, k, getattr(self, k))
         return s
@@ -415,6 +415,36 @@ class Engine:
             raise Unsupported(f'function result type {t}')
         return SV(res_t, build(res_t, name))
 
+    def rec_function(self, nm):
+        """z3 function for a recursive spec function.  Its definition is *revealed* (RecFunction, unfolded by z3) only
+        in the functions whose contract asks for it; everywhere else it is an opaque uninterpreted symbol, which keeps
+        queries small and lets the finite-scope pass produce counter-models."""
+        reveal = set(getattr(self.cur, 'reveal', ()) or ()) if self.cur is not None else set()
+        if getattr(self, 'reveal_all', False):
+            reveal = set(self.R.recfuncs)
+        key = tuple(sorted(reveal))
+        self._recf = getattr(self, '_recf', {})
+        if key not in self._recf:
+            table = {}
+            for name, d in self.R.recfuncs.items():
+                pts = [parse_type(t) for t in d['params'].values()]
+                mk = z3.RecFunction if name in reveal else z3.Function
+                table[name] = mk(f'{name}!{self.ctx.uid}' + ('' if name in reveal else '!opaque'),
+                                 *[self.ctx.sort(t) for t in pts], self.ctx.sort(parse_type(d['res'])))
+            self._recf[key] = table
+            self._recf_current = key
+            for name, d in self.R.recfuncs.items():
+                if name not in reveal:
+                    continue
+                pts = [parse_type(t) for t in d['params'].values()]
+                vars_ = [z3.Const(f'{name}_{p}!{self.ctx.uid}', self.ctx.sort(t)) for p, t in zip(d['params'], pts)]
+                st = State()
+                saved = self.cur
+                body = self.eval_spec_in(st, d['body'], {p: SV(t, v) for p, t, v in zip(d['params'], pts, vars_)})
+                body = self.coerce(body, parse_type(d['res']))
+                z3.RecAddDefinition(table[name], vars_, body.z)
+        return self._recf[key][nm]
+
     def new_record(self, st: State, sort: str) -> SV:
         """`Cls()`: a fresh object that is in no existing collection, with its declared initial field values."""
         rec = self.R.records[sort]
@@ -726,6 +756,9 @@ class Evaluator:
 
     def ev_BinOp(self, n):
         a = self.ev(n.left)
+        if a.t.k == 'opt' and a.t.args[0].k in ('set', 'list'):
+            self.may_raise.append((z3.Not(a.z['none']), 'TypeError', 'None used as a set'))
+            a = SV(a.t.args[0], a.z['v'])
         b = self.ev(n.right, a.t if a.t.k in ('set', 'list') else None)
         a, b = self.fix_empty(a, b)
         op = type(n.op).__name__
@@ -800,6 +833,9 @@ class Evaluator:
         raise Unsupported(f'compare {on} on {a.t}, {b.t}')
 
     def member(self, x: SV, coll: SV):
+        if coll.t.k == 'opt' and coll.t.args[0].k in ('set', 'list'):
+            self.may_raise.append((z3.Not(coll.z['none']), 'TypeError', 'membership test on None'))
+            coll = SV(coll.t.args[0], coll.z['v'])
         t = coll.t
         if t.k in ('set', 'list') and t.args[0] == U('Inst') and x.t == U('Task'):
             # `task in tasks` compares with ==, i.e. by value
@@ -843,6 +879,9 @@ class Evaluator:
         return self.comp(n, 'list')
 
     def comp(self, n, kind):
+        sc = self.struct_comp(n)
+        if sc is not None:
+            return sc
         if len(n.generators) != 1:
             raise Unsupported('nested comprehension')
         g = n.generators[0]
@@ -886,6 +925,110 @@ class Evaluator:
         out = SV(T(kind, (et,)), r)
         out.pred = pred          # membership tests use the defining formula directly instead of selecting from a lambda term
         return out
+
+    def struct_source(self, it_node):
+        """Children of a value tree named by a comprehension source: (children SV, 'list'|'ents', how values are reached)."""
+        node, via = it_node, 'iter'
+        if isinstance(node, ast.Call) and isinstance(node.func, ast.Name) and node.func.id == 'enumerate' and len(node.args) == 1:
+            node, via = node.args[0], 'enumerate'
+        if isinstance(node, ast.Call) and isinstance(node.func, ast.Attribute) and node.func.attr in ('values', 'items') and not node.args:
+            via = node.func.attr
+            node = node.func.value
+        try:
+            src = self.ev(node)
+        except (KeyError, Unsupported):
+            return None
+        if src.t != U('PV'):
+            return None
+        dti = self.ctx.dt_info
+        is_ = lambda c: dti['is_' + c][2](src.z)
+        acc = lambda a: dti[a][2](src.z)
+        if via in ('values', 'items'):
+            ok = z3.Or(is_('PDict'), is_('PFrozen'))
+            ch = z3.If(is_('PDict'), acc('dents'), acc('fents'))
+            return SV(U('PE'), ch), 'ents', via, ok
+        ok = z3.Or(is_('PList'), is_('PTuple'))
+        ch = z3.If(is_('PList'), acc('litems'), acc('titems'))
+        return SV(U('PL'), ch), 'list', via, ok
+
+    def struct_comp(self, n):
+        """Comprehensions that map / concat-map a recursive function with a declared spec over the children of a value
+        tree are translated to the spec's list/entry lifting (code and spec meet syntactically; the recursive calls are
+        the induction hypothesis on structurally smaller arguments)."""
+        gens = n.generators
+        src = self.struct_source(gens[0].iter)
+        if src is None:
+            return None
+        children, shape, via, ok = src
+        if any(g.ifs for g in gens):
+            raise Unsupported('filtered comprehension over a value tree')
+        self.may_raise.append((ok, 'TypeError', 'iteration over a non-collection value'))
+        # name of the variable holding each child value
+        tgt = gens[0].target
+        if via in ('enumerate', 'items'):
+            if not (isinstance(tgt, ast.Tuple) and len(tgt.elts) == 2 and all(isinstance(e, ast.Name) for e in tgt.elts)):
+                raise Unsupported('target shape over a value tree')
+            keyvar, itemvar = tgt.elts[0].id, tgt.elts[1].id
+        else:
+            if not isinstance(tgt, ast.Name):
+                raise Unsupported('target shape over a value tree')
+            keyvar, itemvar = None, tgt.id
+
+        def rec_call(node):
+            if not isinstance(node, ast.Call):
+                return None
+            f = node.func
+            name = f.id if isinstance(f, ast.Name) else (f.attr if isinstance(f, ast.Attribute) else None)
+            c = self.eng.resolve_function(name) if isinstance(f, ast.Name) else None
+            if c is None and isinstance(f, ast.Attribute):
+                try:
+                    recv = self.ev(f.value)
+                    c = self.eng.method_contract_for(recv, f.attr)
+                except (KeyError, Unsupported):
+                    c = None
+            if c is None or not c.spec:
+                return None
+            uses = [a for a in list(node.args) + [k.value for k in node.keywords] if isinstance(a, ast.Name) and a.id == itemvar]
+            return c if uses else None
+
+        if len(gens) == 2:
+            c = rec_call(gens[1].iter)
+            if c is None or not (isinstance(n.elt, ast.Name) and isinstance(gens[1].target, ast.Name) and n.elt.id == gens[1].target.id):
+                raise Unsupported('nested comprehension over a value tree (not a concat-map of a spec function)')
+            key = 'concat_list' if shape == 'list' else 'concat_vals'
+            lifted = c.lift.get(key)
+            if not lifted:
+                raise Unsupported(f'{c.key} declares no {key} lifting')
+            self.lift_requires(c, children, shape)
+            f = self.eng.rec_function(lifted)
+            self.eng.count_use(c)
+            return SV(parse_type(self.R.recfuncs[lifted]['res']), f(children.z))
+        if len(gens) == 1 and isinstance(n, (ast.ListComp, ast.GeneratorExp, ast.SetComp)):
+            c = rec_call(n.elt)
+            if c is None:
+                raise Unsupported('comprehension over a value tree (not a map of a spec function)')
+            lifted = c.lift.get('map_list' if shape == 'list' else 'map_vals')
+            if not lifted:
+                raise Unsupported(f'{c.key} declares no map lifting')
+            self.lift_requires(c, children, shape)
+            self.lift_raises(c, children, shape)
+            f = self.eng.rec_function(lifted)
+            self.eng.count_use(c)
+            return SV(parse_type(self.R.recfuncs[lifted]['res']), f(children.z))
+        return None
+
+    def lift_requires(self, c, children, shape):
+        for pred, table in getattr(c, 'lift_pred', {}).items():
+            lp = table.get('list' if shape == 'list' else 'ents')
+            if lp:
+                self.may_raise.append((self.eng.rec_function(lp)(children.z), 'Precondition', f'{c.key} requires {pred} of every child'))
+
+    def lift_raises(self, c, children, shape):
+        for kind, table in getattr(c, 'lift_raises', {}).items():
+            lp = table.get('list' if shape == 'list' else 'ents')
+            if lp:
+                # the callee raises `kind` on a child iff the lifted definedness predicate fails
+                self.may_raise.append((self.eng.rec_function(lp)(children.z), kind, f'{c.key} raises {kind} on some child'))
 
     def comp_safety(self, dom_t, body, exprs):
         """Implicit-raise conditions inside a comprehension, quantified over its domain."""
@@ -1060,6 +1203,11 @@ class CallEval:
                 return self.macro(nm, n)
             if nm in self.R.deffuncs and self.e.spec:
                 return self.deffunc(nm, n)
+            dti = getattr(self.ctx, 'dt_info', {})
+            if nm in dti and (self.e.spec or dti[nm][0] != 'acc'):
+                return self.dtop(nm, n)
+            if nm in self.R.recfuncs and self.e.spec:
+                return self.recfunc(nm, n)
             if nm in self.R.funcs:
                 return self.ufunc(nm, n)
             if nm in self.eng.exc_kinds() and not self.e.st.has(nm):
@@ -1268,6 +1416,23 @@ class CallEval:
         e = Evaluator(self.eng, sub, spec=True, heap=self.e.heap)
         return e.ev(ast.parse(text.strip(), mode='eval').body)
 
+    def dtop(self, nm, n):
+        kind, dtname, fn, info = self.ctx.dt_info[nm]
+        if kind == 'ctor':
+            args = [self.eng.coerce(self.e.ev(a, parse_type(t)), parse_type(t)) for a, t in zip(n.args, info)]
+            return SV(U(dtname), fn(*[a.z for a in args]))
+        v = self.eng.coerce(self.e.ev(n.args[0]), U(dtname))
+        if kind == 'rec':
+            return SV(BOOL, fn(v.z))
+        return SV(parse_type(info), fn(v.z))
+
+    def recfunc(self, nm, n):
+        d = self.R.recfuncs[nm]
+        pts = [parse_type(t) for t in d['params'].values()]
+        args = [self.eng.coerce(self.e.ev(a, t), t) for a, t in zip(n.args, pts)]
+        f = self.eng.rec_function(nm)
+        return SV(parse_type(d['res']), f(*[a.z for a in args]))
+
     def ufunc(self, nm, n):
         arg_ts, res = self.R.funcs[nm]
         arg_ts = [parse_type(a) for a in arg_ts]
@@ -1309,8 +1474,12 @@ class CallEval:
 
     def fn_set(self, n):
         if not n.args:
+            if self.e.hint is not None and self.e.hint.k == 'set':
+                return SV(self.e.hint, self.ctx.empty_set(self.e.hint.args[0]))
             if self.e.hint is not None and self.e.hint.k in ('set', 'list'):
                 return SV(SET(self.e.hint.args[0]), self.ctx.empty_set(self.e.hint.args[0]))
+            if self.e.hint is not None and self.e.hint.k == 'opt' and self.e.hint.args[0].k == 'set':
+                return SV(self.e.hint.args[0], self.ctx.empty_set(self.e.hint.args[0].args[0]))
             return SV(T('emptycoll', (), 'set'), None)
         v = self.e.ev(n.args[0])
         return self._as_set(v, 'set')
@@ -1341,6 +1510,11 @@ class CallEval:
 
     def _as_set(self, v: SV, kind):
         t = v.t
+        if t.k == 'mapvalues' and v.z.t.args[1].k == 'u':
+            m = v.z
+            kt, vt = m.t.args
+            r = self.ctx.set_comp(vt, lambda y: self.ctx.exists([kt], lambda k: z3.And(z3.Select(m.z['dom'], k), z3.Select(m.z['val'], k) == y)))
+            return SV(T('list', (vt,)), r)
         if t.k in ('mapvalues', 'mapitems'):
             return v          # list(d.values()) / list(d.items()): an immutable snapshot of the view
         if t.k in ('set', 'list'):
@@ -1376,6 +1550,8 @@ class CallEval:
         # id(x): object identity.  For an instance-sorted value the value itself *is* the identity.
         if v.t.k == 'u' and v.t.name in getattr(self.R, 'identity_sorts', ('Inst',)):
             return v
+        if v.t == U('PV'):
+            return self.eng.apply_func('pv_id', [v], U('Ident'))
         raise Unsupported(f'id() of {v.t}')
 
     def fn_isinstance(self, n):
